@@ -103,7 +103,8 @@ class Tensor2Field(DataFieldBase):
                 consts = {}
             if "cartesian" not in consts:
                 coords_cart = grid.point_to_cartesian(grid.cell_coords)
-                consts["cartesian"] = np.moveaxis(coords_cart, -1, 0)
+                # add the coordinates to a copy to leave the dictionary of the caller untouched
+                consts = {**consts, "cartesian": np.moveaxis(coords_cart, -1, 0)}
             assert "cartesian" in consts
 
         # obtain the coordinates of the grid points
